@@ -138,6 +138,11 @@ def cases(O):
             fs[os.path.join(folder, "idx.map")] = {"data": json.dumps({"version": 3, "sections": [{"offset": {"line": 0, "column": 0}, "map": omap}]})}
         elif kind == "empty":
             tail = "//# sourceMappingURL="
+        # the reference written as a block comment, or with blanks after the URL: the URL is what stands between `=` and the
+        # trailing white space
+        if tail.startswith("//# sourceMappingURL=") and kind in ("inline", "rel", "abs", "lookalike", "missing", "index") and i % 5 == 1:
+            url = tail[len("//# sourceMappingURL="):]
+            tail = rng.choice(["/*# sourceMappingURL=%s */", "//# sourceMappingURL=%s \t", "//#  sourceMappingURL=%s".replace("#  ", "# "), "/*# sourceMappingURL=%s\n*/", "//# sourceMappingURL=%s  "]) % url
         # other comments around the reference (swc keeps every comment that follows the same token in one entry of its store):
         # they are text of the program like any other
         before, after = "", ""
